@@ -54,7 +54,8 @@ static int process_data(xfrm_stream_t *stream, const void *in, sqfs_u32 in_size,
 	if (flush_mode < 0 || flush_mode >= XFRM_STREAM_FLUSH_COUNT)
 		flush_mode = XFRM_STREAM_FLUSH_NONE;
 
-	while (in_size > 0 && out_size > 0) {
+	while ((in_size > 0 || flush_mode == XFRM_STREAM_FLUSH_FULL) &&
+	       out_size > 0) {
 		bzip2->strm.next_in = (char *)in;
 		bzip2->strm.avail_in = in_size;
 
@@ -92,6 +93,16 @@ static int process_data(xfrm_stream_t *stream, const void *in, sqfs_u32 in_size,
 			}
 
 			bzip2->initialized = false;
+			return XFRM_STREAM_END;
+		}
+
+		/* no more input will follow and nothing is left to unpack */
+		if (!bzip2->compress && in_size == 0 && diff == 0 &&
+		    flush_mode == XFRM_STREAM_FLUSH_FULL) {
+			if (bzip2->strm.total_in_lo32 > 0 ||
+			    bzip2->strm.total_in_hi32 > 0)
+				return XFRM_STREAM_ERROR;
+
 			return XFRM_STREAM_END;
 		}
 	}
